@@ -21,9 +21,9 @@ package main
 // times as Unix seconds, unbonding ids, the order of list entries, pagination next key and
 // total).  When the native query says "not found" the precompile may fail or report the empty
 // answer, but must not report a record.  When the native query fails otherwise (malformed
-// address, unknown status, key and offset together) nothing is demanded.  One refusal of the pinned
-// tree is recorded and tolerated (tag page:offset-refused-by-precompile): a list method called with an
-// offset > 0 fails, because the ABI-decoded page key is an empty but non-nil byte string.
+// address, unknown status, key and offset together) nothing is demanded.  (Finding F12, fixed in /repo: a list
+// method called with an offset > 0 used to fail through the precompile, because the ABI-decoded page key is an
+// empty but non-nil byte string.)
 //
 // Without explicit questions ("only": false) the case asks everything: every account (six actors
 // and a stranger) x every validator (three and an address without a record) for delegation and
@@ -370,14 +370,6 @@ func (r *sqRun) judge(q sqQuery, method string, got []interface{}, ethErr error,
 	switch kind {
 	case "answered":
 		r.found++
-		if ethErr != nil && sqOffsetRefused(q, ethErr) {
-			// Observation on the pinned tree (reported, not demanded): ABI decoding leaves the page key an EMPTY, non-nil
-			// byte string, and the SDK's pagination refuses "offset > 0 && key != nil"; the native request carries no key.
-			// An offset is therefore unusable through the precompile.  Decided from the input (offset > 0 on a list
-			// method); when the call does succeed its answer is compared like any other.
-			r.tag("page:offset-refused-by-precompile")
-			return "", a
-		}
 		if ethErr != nil {
 			return fmt.Sprintf("%s: the native query answers %v, the precompile call fails: %v", q, want, ethErr), a
 		}
@@ -390,11 +382,6 @@ func (r *sqRun) judge(q sqQuery, method string, got []interface{}, ethErr error,
 		}
 	}
 	return "", a
-}
-
-func sqOffsetRefused(q sqQuery, ethErr error) bool {
-	return (q.M == "validators" || q.M == "redelegations") && q.Off > 0 && ethErr != nil &&
-		strings.Contains(ethErr.Error(), "either offset or key is expected")
 }
 
 func (e *ssEnv) sqPageReq(q sqQuery, key []byte) query.PageRequest {
